@@ -298,8 +298,9 @@ func runBatch(p *Property, tier string, seed int64, bin, tmp string, id int, b b
 				open = false
 			case "viol":
 				m.viols = append(m.viols, violation{Property: p.ID, Tier: tier, Seed: seed, Case: e.ID, Sig: e.Sig, Key: e.Key, Desc: e.Desc, Detail: e.Detail})
-			case "summary":
+			case "done":
 				summary = true
+			case "summary":
 				m.evals += e.Evals
 				for k, v := range e.Counters {
 					m.counters[k] += v
